@@ -100,4 +100,289 @@ theorem euMemDone_nonjump (app : App) (s : State) (eu : ExecUnit) (r : Runner)
               rw [euRun_nonjump app _ r m hj]
               rfl
 
+
+/-! ### the simulation relation of MVP-5 -/
+
+/-- the decoded instructions in flight, oldest first: the execute unit's, then the execute bus -/
+def runners (b : Model.Mvp4.State) : List Runner :=
+  (if b.eu.processing then b.eu.runner.toList else []) ++ b.executeBus.inside
+
+/-- an unconditional jump -/
+def isJump (r : Runner) : Bool := r.instr.instructionType.IsUnconditionalBranch
+
+/-- the decode bus as the decode unit will see it: empty when the fetch unit has been told to clean it -/
+def dEff (s : State) : List Word := if s.toCleanPending then [] else s.base.decodeBus.inside
+
+/-- the fetched, not yet decoded pcs and the fetch pc — meaningless (wrong path or about to be redirected) while
+the decode unit waits for a jump to be resolved -/
+def tailW (s : State) : List Word := if s.duPending then [] else dEff s ++ [s.base.fu.pc]
+
+/-- the front end while the `Run` loop is at the head of its outer `for`: the decoded instructions in flight,
+followed — unless a jump is waiting to be resolved — by the fetched pcs and the fetch pc, are consecutive from the
+architectural pc; an unconditional jump is always the youngest decoded instruction, and the decode unit waits
+exactly while there is one -/
+structure NormalOk5 (app : App) (s : State) (a : Arch) : Prop where
+  consec : Consec a.pc ((runners s.base).map (·.pc) ++ tailW s)
+  jumpLast : ∀ l x l', runners s.base = l ++ x :: l' → isJump x = true → l' = [] ∧ s.duPending = true
+  pendJump : s.duPending = true → ∃ l x, runners s.base = l ++ [x] ∧ isJump x = true
+  complete : s.base.fu.complete = true → Model.Mvp4.pastEnd app s.base.fu.pc = true
+  instrs : ∀ r ∈ runners s.base, instrAt app r.pc = .ok r.instr
+  euRunner : s.base.eu.processing = true → ∃ r, s.base.eu.runner = some r
+  idle : s.base.eu.processing = false → s.base.eu.pendingMemoryRead = false
+  pend : s.base.eu.pendingMemoryRead = true → ∃ r, s.base.eu.runner = some r ∧ isJump r = false ∧ PendOk s.base a r
+  nomem : s.base.eu.pendingMemoryRead = false → s.base.eu.memory = none
+
+/-- the front end, by the position of the `Run` loop -/
+def FrontRel5 (app : App) (s : State) (a : Arch) : Mode → Prop
+  | .normal => NormalOk5 app s a
+  | .drainFlush pc => a.pc = pc ∧ s.base.eu.pendingMemoryRead = false ∧ s.base.eu.memory = none
+  | .drainRet => ∃ c, stepArch dc app a = .halt .ret c
+
+/-- **the simulation relation of MVP-5**: MVP-4's back-end relation on the common part of the state, and the
+MVP-5 front end -/
+structure Rel5 (app : App) (s : State) (a : Arch) : Prop where
+  back : Back s.base a
+  front : FrontRel5 app s a s.base.mode
+
+
+/-! ### the branch unit's `assert` -/
+
+theorem assert_nonjump (s : State) (r : Runner) (hj : isJump r = false) :
+    ∃ bu, assert s r = { s with base := { s.base with bu := bu } } ∧ ∃ bu0, bu = Model.Mvp4.BranchUnit.assert bu0 r := by
+  unfold isJump at hj
+  unfold assert
+  simp only [hj, Bool.false_eq_true, if_false]
+  by_cases hc : r.instr.instructionType.IsConditionalBranch = true
+  · simp only [hc, if_true]
+    refine ⟨_, rfl, s.base.bu, ?_⟩
+    unfold Model.Mvp4.BranchUnit.assert
+    simp [hj, hc]
+  · have hc' : r.instr.instructionType.IsConditionalBranch = false := by simpa using hc
+    simp only [hc', Bool.false_eq_true, if_false]
+    refine ⟨_, rfl, { s.base.bu with toCheck := false }, ?_⟩
+    unfold Model.Mvp4.BranchUnit.assert
+    simp [hj, hc']
+
+theorem assert_jump (s : State) (r : Runner) (hj : isJump r = true) :
+    (∃ bu, assert s r = { s with base := { s.base with bu := bu } }) ∨
+    (∃ bu pc, (∃ e ∈ s.btb, e.2 = pc) ∧ assert s r = fuReset { s with base := { s.base with bu := bu } } pc) := by
+  unfold isJump at hj
+  unfold assert
+  simp only [hj, if_true]
+  cases hg : btbGet s.btb r.pc with
+  | none => exact Or.inl ⟨_, rfl⟩
+  | some nextPc =>
+    refine Or.inr ⟨_, nextPc, ?_, rfl⟩
+    unfold btbGet at hg
+    cases hf : s.btb.find? (fun e => e.1 == r.pc) with
+    | none => rw [hf] at hg; cases hg
+    | some e =>
+      rw [hf] at hg
+      simp only [Option.map_some, Option.some.injEq] at hg
+      exact ⟨e, List.mem_of_find?_eq_some hf, hg⟩
+
+/-- what `assert` leaves alone: everything but the branch unit's expectation, the fetch pc / `complete` and the
+cleaning flag -/
+theorem assert_frame (app : App) (s : State) (r : Runner) :
+    (assert s r).base.ctx = s.base.ctx ∧ (assert s r).base.pwmi = s.base.pwmi ∧
+    (assert s r).base.writeBus = s.base.writeBus ∧ (assert s r).base.mmu = s.base.mmu ∧
+    (assert s r).base.eu = s.base.eu ∧ (assert s r).base.executeBus = s.base.executeBus ∧
+    (assert s r).base.decodeBus = s.base.decodeBus ∧
+    (assert s r).base.wu = s.base.wu ∧ (assert s r).base.mode = s.base.mode ∧
+    (assert s r).base.cycles = s.base.cycles ∧ (assert s r).base.executed = s.base.executed ∧
+    (assert s r).duPending = s.duPending ∧ (assert s r).btb = s.btb ∧
+    ((s.base.fu.complete = true → Model.Mvp4.pastEnd app s.base.fu.pc = true) →
+      ((assert s r).base.fu.complete = true → Model.Mvp4.pastEnd app (assert s r).base.fu.pc = true)) ∧
+    (assert s r).base.fu.processing = s.base.fu.processing ∧
+    (assert s r).base.fu.remainingCycles = s.base.fu.remainingCycles ∧
+    ((assert s r).base.fu = s.base.fu ∧ (assert s r).toCleanPending = s.toCleanPending ∨
+      (assert s r).toCleanPending = true ∧ (assert s r).base.fu.complete = false) ∧
+    ((assert s r).base.fu.pc = s.base.fu.pc ∨ ∃ e ∈ s.btb, (assert s r).base.fu.pc = e.2) := by
+  cases hj : isJump r with
+  | false =>
+    obtain ⟨bu, h, _⟩ := assert_nonjump s r hj
+    rw [h]
+    exact ⟨rfl, rfl, rfl, rfl, rfl, rfl, rfl, rfl, rfl, rfl, rfl, rfl, rfl, id, rfl, rfl, Or.inl ⟨rfl, rfl⟩, Or.inl rfl⟩
+  | true =>
+    rcases assert_jump s r hj with ⟨bu, h⟩ | ⟨bu, pc, ⟨e0, he0, he0'⟩, h⟩
+    · rw [h]
+      exact ⟨rfl, rfl, rfl, rfl, rfl, rfl, rfl, rfl, rfl, rfl, rfl, rfl, rfl, id, rfl, rfl, Or.inl ⟨rfl, rfl⟩, Or.inl rfl⟩
+    · rw [h]
+      exact ⟨rfl, rfl, rfl, rfl, rfl, rfl, rfl, rfl, rfl, rfl, rfl, rfl, rfl, fun _ hx => (by cases hx), rfl, rfl,
+        Or.inr ⟨rfl, rfl⟩, Or.inr ⟨e0, he0, he0'.symm⟩⟩
+
+
+/-- for an instruction that is not an unconditional jump, the issue logic of MVP-5 is MVP-4's (on a machine whose
+branch unit holds what MVP-5's `assert` leaves) -/
+theorem euIssue_nonjump (app : App) (s : State) (eu : ExecUnit) (r : Runner) (hj : isJump r = false) :
+    ∃ bu0, Model.Mvp5.euIssue app s eu r =
+      (Model.Mvp4.euIssue app { s.base with bu := bu0 } eu r).map (lift s) := by
+  obtain ⟨bu, hA, bu0, hbu⟩ := assert_nonjump s r hj
+  refine ⟨bu0, ?_⟩
+  unfold Model.Mvp5.euIssue Model.Mvp4.euIssue
+  rw [hA]
+  simp only
+  rw [← hbu]
+  by_cases hhz : Model.Mvp4.isWriteDataHazard s.base.ctx.PendingWriteRegisters r.instr.readRegisters = true
+  · simp only [hhz, if_true]; rfl
+  · simp only [hhz, if_false]
+    cases haddrs : r.instr.memoryRead s.base.ctx 0#32 with
+    | nil =>
+      simp only [List.isEmpty_nil, Bool.not_true, Bool.false_eq_true, if_false]
+      rw [euRun_nonjump app _ r [] hj]
+      rfl
+    | cons a0 as =>
+      simp only [List.isEmpty_cons, Bool.not_false, if_true]
+      by_cases hpw : ((a0 :: as).any fun a => Model.Mvp4.pendingWriteMemoryIntention s.base.pwmi (Model.Mvp4.lineOf a)) = true
+      · simp only [hpw, if_true]; rfl
+      · simp only [hpw, if_false]
+        cases Model.Mmu.getFromL1D s.base.mmu (a0 :: as) with
+        | error f => rfl
+        | ok x =>
+          obtain ⟨m, mmu⟩ := x
+          simp only [bind, Except.bind]
+          cases m <;> rfl
+
+
+/-! ### issuing an unconditional jump -/
+
+/-- what `euIssue` on a jump leaves alone -/
+structure FrameJ (app : App) (s s2 : State) : Prop where
+  executeBus : s2.base.executeBus = s.base.executeBus
+  wu : s2.base.wu = s.base.wu
+  mode : s2.base.mode = s.base.mode
+  cycles : s2.base.cycles = s.base.cycles
+  l1i : s2.base.mmu.l1i = s.base.mmu.l1i
+  decodeBus : s2.base.decodeBus = s.base.decodeBus
+  fuProc : s2.base.fu.processing = s.base.fu.processing
+  fuRem : s2.base.fu.remainingCycles = s.base.fu.remainingCycles
+  complete : (s.base.fu.complete = true → Model.Mvp4.pastEnd app s.base.fu.pc = true) →
+    (s2.base.fu.complete = true → Model.Mvp4.pastEnd app s2.base.fu.pc = true)
+
+/-- **a jump restarts the front end at its target**: issuing the unconditional jump at the architectural pc either
+stalls (register interlock), or fails with the error of the unpipelined machine, or performs the sequential step:
+the link result is queued, the BTB learns the target, the decode unit is released, the fetch unit restarts AT THE
+NEXT ARCHITECTURAL PC and is told to clean the decode bus — whether or not the prediction was right; `flush` is
+only signalled in addition when it was wrong. -/
+theorem euIssue_jump_sim {app : App} {s : State} {a : Arch} {eu : ExecUnit} {r : Runner} {s2 : State} {out : EuOut}
+    (hb : Back s.base a) (hsid : eu.storeID = s.base.eu.storeID)
+    (hpc : r.pc = a.pc) (hi : instrAt app r.pc = .ok r.instr) (hnf : NoFwd app)
+    (hfree : s.base.writeBus.canAdd = true) (hok : Model.Mvp4.stepOk app a = true) (hj : isJump r = true)
+    (h : Model.Mvp5.euIssue app s eu r = .ok (s2, out)) :
+    FrameJ app s s2 ∧
+    ((out = .none ∧ Back s2.base a ∧ s2.base.eu = { eu with remainingCycles := 1 } ∧ s2.duPending = s.duPending ∧
+        s2.base.writeBus = s.base.writeBus ∧ s2.base.ctx = s.base.ctx ∧ s2.base.pwmi = s.base.pwmi ∧
+        s.base.writeBus.isEmpty = false ∧ s2.btb = s.btb ∧
+        (s2.base.fu.pc = s.base.fu.pc ∨ ∃ e ∈ s.btb, s2.base.fu.pc = e.2)) ∨
+     (out = .err ∧ ∃ c, stepArch dc app a = .halt .err c) ∨
+     (∃ a' c, stepArch dc app a = .next a' c ∧ Back s2.base a' ∧ a'.pc = s2.base.fu.pc ∧
+        s2.toCleanPending = true ∧ s2.duPending = false ∧ s2.base.fu.complete = false ∧
+        s2.base.eu = { eu with processing := false, runner := none } ∧ (out = .none ∨ out = .flush a'.pc) ∧
+        s2.btb = btbAdd s.btb r.pc a'.pc)) := by
+  have hf := hnf.at hi
+  have hi' : instrAt app a.pc = .ok r.instr := hpc ▸ hi
+  obtain ⟨f1, f2, f3, f4, f5, f6, f7, f8, f9, f10, f11, f12, f13, f14, f15, f16, _, f18⟩ := assert_frame app s r
+  have hb1 : BackRel (assert s r).base.ctx (assert s r).base.pwmi (assert s r).base.writeBus.inside
+      (assert s r).base.mmu.l1d s.base.eu.storeID a := by rw [f1, f2, f3, f4]; exact hb
+  unfold Model.Mvp5.euIssue at h
+  simp only at h
+  by_cases hhz : Model.Mvp4.isWriteDataHazard (assert s r).base.ctx.PendingWriteRegisters r.instr.readRegisters = true
+  · -- register interlock
+    simp only [hhz, if_true, pure, Except.pure] at h
+    injection h with h
+    simp only [Prod.mk.injEq] at h
+    obtain ⟨rfl, rfl⟩ := h
+    refine ⟨⟨f6, f8, f9, f10, by show (assert s r).base.mmu.l1i = _; rw [f4], f7, f15, f16, f14⟩, Or.inl ⟨rfl, ?_, rfl, f12, f3, f1, f2, ?_, f13, f18⟩⟩
+    · show BackRel (assert s r).base.ctx (assert s r).base.pwmi (assert s r).base.writeBus.inside
+        (assert s r).base.mmu.l1d eu.storeID a
+      rw [hsid]; exact hb1
+    · rw [← f3]
+      exact nonempty_of_hazard hb1 hhz
+  · have hhz' : Model.Mvp4.isWriteDataHazard (assert s r).base.ctx.PendingWriteRegisters r.instr.readRegisters = false := by
+      simpa using hhz
+    simp only [hhz', Bool.false_eq_true, if_false] at h
+    have hnw := noWriter_of_hazard hb1 hhz'
+    have hsr := sameRegs_of_noWriter hb1 hnw
+    have haddr : r.instr.memoryRead (assert s r).base.ctx 0#32 = [] := by
+      rw [memoryRead_congr r.instr hf hsr 0#32]; exact jump_no_load r.instr a.ctx 0#32 hj
+    have hbytes : (r.instr.memoryRead a.ctx 0#32).mapM (readMem a.ctx.Memory) = some [] := by
+      rw [jump_no_load r.instr a.ctx 0#32 hj]; rfl
+    simp only [haddr, List.isEmpty_nil, Bool.not_true, Bool.false_eq_true, if_false] at h
+    have hrun : r.instr.run (assert s r).base.ctx app.labels r.pc [] 0#32 = r.instr.run a.ctx app.labels a.pc [] 0#32 := by
+      rw [hpc]; exact run_congr r.instr hf hsr app.labels a.pc [] 0#32
+    have hstep := stepArch_run hi' hbytes
+    unfold Model.Mvp5.euRun at h
+    simp only at h
+    rw [hrun] at h
+    cases hr : r.instr.run a.ctx app.labels a.pc [] 0#32 with
+    | error f =>
+      cases f with
+      | panic w => simp [hr, throw, throwThe, MonadExceptOf.throw] at h
+      | err msg =>
+        simp only [hr, pure, Except.pure] at h
+        injection h with h
+        simp only [Prod.mk.injEq] at h
+        obtain ⟨rfl, rfl⟩ := h
+        refine ⟨⟨f6, f8, f9, f10, by show (assert s r).base.mmu.l1i = _; rw [f4], f7, f15, f16, f14⟩, Or.inr (Or.inl ⟨rfl, ?_⟩)⟩
+        rw [hstep]; exact stepTail_err hr
+    | ok e =>
+      obtain ⟨ex, hex⟩ := Proofs.Refine.cycles_ok r.instr.instructionType
+      have hshape := run_shape r.instr a.ctx app.labels a.pc [] 0#32 e hr
+      obtain ⟨hpcc, hmc, hret⟩ := run_jump r.instr a.ctx app.labels a.pc [] 0#32 e hj hr
+      simp only [hr, hret, Bool.false_eq_true, if_false, hmc, pure, Except.pure, bind, Except.bind] at h
+      injection h with h
+      have hs2 := congrArg Prod.fst h
+      have hout := congrArg Prod.snd h
+      simp only at hs2 hout
+      -- the architectural state after the jump
+      have hnext : ∃ a' k, stepTail app a r.instr [] = .next a' k ∧ a'.pc = e.NextPc ∧ a'.ctx.rat = false ∧
+          a'.ctx.Transaction.entries = [] ∧
+          a'.ctx.Registers = (if e.RegisterChange then a.ctx.Registers.set e.Register e.RegisterValue else a.ctx.Registers) ∧
+          a'.ctx.Memory = (if e.RegisterChange then a.ctx.Memory else
+            if e.MemoryChange then applyChanges a.ctx.Memory e.MemoryChanges else a.ctx.Memory) := by
+        by_cases hrc : e.RegisterChange = true
+        · obtain ⟨k, hk⟩ := stepTail_reg hr hex hret hrc
+          exact ⟨_, k, hk, by simp [nextPc, hpcc], hb.arat, hb.atx, by simp [hrc, writeRegister], by simp [hrc, writeRegister]⟩
+        · have hrc' : e.RegisterChange = false := by simpa using hrc
+          obtain ⟨k, hk⟩ := stepTail_plain hr hex hret hrc' hmc
+          exact ⟨_, k, hk, by simp [nextPc, hpcc], hb.arat, hb.atx, by simp [hrc'], by simp [hrc', hmc]⟩
+      obtain ⟨a', k, hk, hapc, har, hat, hregs, hmem⟩ := hnext
+      -- MVP-4's `euQueue` on the common part of the state
+      have hq := euQueue_back
+        (s := { (assert s r).base with eu := eu, executed := (assert s r).base.executed + 1 }) (a := a) (r := r) (e := e)
+        (eu := { eu with processing := false, runner := none }) (mmu := (assert s r).base.mmu)
+        (by show BackRel (assert s r).base.ctx (assert s r).base.pwmi (assert s r).base.writeBus.inside
+              (assert s r).base.mmu.l1d eu.storeID a
+            rw [hsid]; exact hb1)
+        hshape (by show (assert s r).base.writeBus.canAdd = true; rw [f3]; exact hfree)
+        (fun _ hx => by rw [hmc] at hx; cases hx) a' har hat hregs hmem
+      obtain ⟨q1, q2, q3, q4, q5, q6, q7, q8, q9, q10, q11, q12, q13⟩ := hq
+      unfold Model.Mvp5.euQueue at hs2 hout
+      unfold isJump at hj
+      simp only [hj, if_true] at hs2 hout
+      subst hs2
+      refine ⟨⟨?_, ?_, ?_, ?_, ?_, ?_, ?_, ?_, fun _ hx => (by cases hx)⟩, Or.inr (Or.inr ⟨a', k, by rw [hstep]; exact hk, ?_, ?_, rfl, rfl, rfl, ?_, ?_, ?_⟩)⟩
+      · exact q8.trans f6
+      · exact q9.trans f8
+      · exact q10.trans f9
+      · exact q11.trans f10
+      · exact (congrArg (·.l1i) q12).trans (congrArg (·.l1i) f4)
+      · exact q7.trans f7
+      · exact (congrArg (·.processing) q6).trans f15
+      · exact (congrArg (·.remainingCycles) q6).trans f16
+      · exact q1
+      · exact hapc
+      · -- the execute unit afterwards
+        have e1 : (Model.Mvp4.euQueue { (assert s r).base with eu := eu, executed := (assert s r).base.executed + 1 } r e
+            { eu with processing := false, runner := none } (assert s r).base.mmu).1.eu =
+            { eu with processing := false, runner := none } := by
+          unfold Model.Mvp4.euQueue; simp only [hmc, Bool.false_eq_true, if_false]
+        exact e1
+      · rw [← hout, q13, hapc]
+        split
+        · exact Or.inr rfl
+        · exact Or.inl rfl
+      · show btbAdd (assert s r).btb r.pc e.NextPc = _
+        rw [f13, hapc]
+
 end Proofs.Mvp5
